@@ -14,17 +14,146 @@ import (
 // R-C11-10: a hot-reloadable option never forces a restart of the listener.
 //
 // runtime.reload restarts the HTTP server (Shutdown closes the listener: new connections
-// are refused while old-generation requests are in flight) iff needRestartServer says so.
-// needRestartServer decides by comparing two private copies of the running and the next
-// Spec after blanking the hot-reloadable fields. Necessary conditions decided here:
-//   - the two operands of the comparison are two distinct struct-valued locals (private
-//     copies, so blanking cannot touch the live specs), one copied from the running spec,
-//     the other from the next spec;
-//   - sibling symmetry: the set of fields blanked (assigned a constant / nil at the top
-//     level of the function, before the comparison) is the same on both copies, with the
-//     same neutral value — a field blanked on one side only makes the copies differ for
-//     every update of a server that sets the field, i.e. every rule update restarts;
+// are refused while old-generation requests are in flight) iff the restart decision
+// (needRestartServer today; resolved by role) says so. It decides by comparing a private
+// copy of the running Spec with a private copy of the next Spec after blanking the
+// hot-reloadable fields. Necessary conditions decided here:
+//   - the two operands of the comparison are two distinct private copies (struct values, so
+//     blanking cannot touch the live specs), one taken from the running spec, the other
+//     from the next spec;
+//   - sibling symmetry: the set of fields blanked (assigned a constant / nil before the
+//     comparison — at the top level of the deciding function and/or inside a same-package
+//     normaliser function applied to the copy) is the same on both copies, with the same
+//     neutral value — a field blanked on one side only makes the copies differ for every
+//     update of a server that sets the field, i.e. every rule update restarts;
 //   - Rules is among the blanked fields (the property's "updating the rules").
+//
+// Shapes seen through: the comparison in a same-package predicate (`sameSpec(x, y)`), the
+// blanking in a same-package normaliser (`x := withoutHotFields(*r.spec)`, also directly as
+// operand), split / tuple / reordered assignments. A shape that cannot be followed is
+// undecided, never a violation.
+
+type c11SpecCmp struct {
+	at   ast.Node
+	a, b ast.Expr
+}
+
+// c11SpecComparisons lists the comparisons of two Spec values in fd: reflect.DeepEqual,
+// == / !=, or a call of a same-package predicate over two Spec parameters that compares them.
+func c11SpecComparisons(f *flow.Func, fd *ast.FuncDecl, specT *types.Named, depth int) []c11SpecCmp {
+	isSpec := func(e ast.Expr) bool {
+		tv, ok := f.Info.Types[e]
+		return ok && tv.Type != nil && (types.Identical(tv.Type, specT) || types.Identical(tv.Type, types.NewPointer(specT)))
+	}
+	var out []c11SpecCmp
+	ast.Inspect(fd.Body, func(n ast.Node) bool {
+		switch x := n.(type) {
+		case *ast.FuncLit:
+			return false
+		case *ast.CallExpr:
+			if calleeFull(f, x) == "reflect.DeepEqual" && len(x.Args) == 2 && isSpec(x.Args[0]) && isSpec(x.Args[1]) {
+				out = append(out, c11SpecCmp{x, x.Args[0], x.Args[1]})
+				return true
+			}
+			if depth < 2 && len(x.Args) == 2 && isSpec(x.Args[0]) && isSpec(x.Args[1]) {
+				if callee, ok := f.Callee(x).(*types.Func); ok && callee.Pkg() == f.Pkg.Types {
+					if gd := declOf(f.Pkg, callee); gd != nil && gd.Recv == nil {
+						g := flow.NewFunc(f.Pkg, gd)
+						inner := c11SpecComparisons(g, gd, specT, depth+1)
+						if len(inner) == 1 && c11ComparesParams(g, gd, inner[0]) {
+							out = append(out, c11SpecCmp{x, x.Args[0], x.Args[1]})
+						}
+					}
+				}
+			}
+		case *ast.BinaryExpr:
+			if (x.Op == token.EQL || x.Op == token.NEQ) && isSpec(x.X) && isSpec(x.Y) {
+				if tv := f.Info.Types[x.X]; types.Identical(tv.Type, specT) {
+					out = append(out, c11SpecCmp{x, x.X, x.Y})
+				}
+			}
+		}
+		return true
+	})
+	return out
+}
+
+// c11ComparesParams: the comparison's operands are the function's two (distinct) parameters.
+func c11ComparesParams(g *flow.Func, gd *ast.FuncDecl, cm c11SpecCmp) bool {
+	a, ok1 := ast.Unparen(cm.a).(*ast.Ident)
+	b, ok2 := ast.Unparen(cm.b).(*ast.Ident)
+	if !ok1 || !ok2 {
+		return false
+	}
+	ia, okA := c11ParamIndex(g.Info, gd, g.Info.Uses[a])
+	ib, okB := c11ParamIndex(g.Info, gd, g.Info.Uses[b])
+	return okA && okB && ia != ib && ia >= 0 && ib >= 0
+}
+
+// c11BlankedIn collects `v.F = const|nil` assignments among the top-level statements of body
+// that precede `before` (nil = all): field -> rendered neutral value. dup names a target
+// assigned twice in one tuple assignment.
+func c11BlankedIn(f *flow.Func, body *ast.BlockStmt, v *types.Var, before ast.Node) (map[*types.Var]string, string) {
+	out := map[*types.Var]string{}
+	dup := ""
+	for _, st := range body.List {
+		if before != nil && (st.Pos() >= before.Pos() || contains(st, before)) {
+			break
+		}
+		as, ok := st.(*ast.AssignStmt)
+		if !ok || as.Tok != token.ASSIGN {
+			continue
+		}
+		seen := map[*types.Var]bool{}
+		for i, l := range as.Lhs {
+			sel, ok := ast.Unparen(l).(*ast.SelectorExpr)
+			if !ok {
+				continue
+			}
+			id, ok := ast.Unparen(sel.X).(*ast.Ident)
+			if !ok || f.Info.Uses[id] != v {
+				continue
+			}
+			sl := f.Info.Selections[sel]
+			if sl == nil || sl.Kind() != types.FieldVal {
+				continue
+			}
+			fv := sl.Obj().(*types.Var)
+			val := "?"
+			if len(as.Rhs) == len(as.Lhs) {
+				if tv, ok := f.Info.Types[as.Rhs[i]]; ok {
+					switch {
+					case tv.IsNil():
+						val = "nil"
+					case tv.Value != nil:
+						val = tv.Value.ExactString()
+					default:
+						val = "?" + f.Render(as.Rhs[i])
+					}
+				}
+			}
+			if seen[fv] {
+				dup = v.Name() + "." + fv.Name()
+			}
+			seen[fv] = true
+			out[fv] = val
+		}
+	}
+	return out, dup
+}
+
+// c11Operand is one side of the restart comparison, resolved to the spec it is a copy of.
+type c11Operand struct {
+	label     string                // how the operand is named in messages
+	v         *types.Var            // the local holding the copy (nil: the operand is an expression)
+	copyOf    ast.Expr              // the *Spec expression the copy is taken from
+	fromParam bool                  // copyOf mentions a parameter of the deciding function (the next spec)
+	blank     map[*types.Var]string // fields blanked before the comparison
+	dup       string
+	violation string // a definite defect of this operand
+	undecided string // a shape that cannot be followed
+}
+
 func c11Restart(c *core.Ctx) {
 	specT := namedType(c, hs, "Spec")
 	rulesF := structField(c, hs, "Spec", "Rules")
@@ -46,28 +175,7 @@ func c11Restart(c *core.Ctx) {
 				hasSpec = true
 			}
 		}
-		if !hasSpec {
-			return false
-		}
-		found := false
-		ast.Inspect(fd.Body, func(n ast.Node) bool {
-			switch x := n.(type) {
-			case *ast.CallExpr:
-				if calleeFull(g, x) == "reflect.DeepEqual" && len(x.Args) == 2 {
-					if tv, ok := g.Info.Types[x.Args[0]]; ok && tv.Type != nil && (types.Identical(tv.Type, specT) || types.Identical(tv.Type, types.NewPointer(specT))) {
-						found = true
-					}
-				}
-			case *ast.BinaryExpr:
-				if x.Op == token.EQL || x.Op == token.NEQ {
-					if tv, ok := g.Info.Types[x.X]; ok && tv.Type != nil && types.Identical(tv.Type, specT) {
-						found = true
-					}
-				}
-			}
-			return true
-		})
-		return found
+		return hasSpec && len(c11SpecComparisons(g, fd, specT, 0)) > 0
 	})
 	if len(cands) > 1 {
 		for _, g := range cands {
@@ -87,8 +195,15 @@ func c11Restart(c *core.Ctx) {
 	name := declName(f.Pkg, fd)
 	info := f.Info
 
-	// the comparison: reflect.DeepEqual(a, b) or a == b / a != b on two Spec values
-	isSpecVal := func(e ast.Expr) *types.Var {
+	cmps := c11SpecComparisons(f, fd, specT, 0)
+	if len(cmps) != 1 {
+		c.Undecide("R-C11-10", name+"|comparison of the two spec copies", pos(c, fd.Name),
+			sprintf("expected exactly one comparison (reflect.DeepEqual, == or a same-package predicate) of two Spec values, found %d: the restart decision has a shape this rule cannot judge", len(cmps)))
+		return
+	}
+	cm := cmps[0]
+
+	localVar := func(e ast.Expr) *types.Var {
 		id, ok := ast.Unparen(e).(*ast.Ident)
 		if !ok {
 			return nil
@@ -99,37 +214,23 @@ func c11Restart(c *core.Ctx) {
 		}
 		return v
 	}
-	type cmp struct {
-		at   ast.Node
-		a, b ast.Expr
-	}
-	var cmps []cmp
-	ast.Inspect(fd.Body, func(n ast.Node) bool {
-		switch x := n.(type) {
-		case *ast.CallExpr:
-			if calleeFull(f, x) == "reflect.DeepEqual" && len(x.Args) == 2 {
-				cmps = append(cmps, cmp{x, x.Args[0], x.Args[1]})
-			}
-		case *ast.BinaryExpr:
-			if x.Op == token.EQL || x.Op == token.NEQ {
-				if tv, ok := info.Types[x.X]; ok && tv.Type != nil && types.Identical(tv.Type, specT) {
-					cmps = append(cmps, cmp{x, x.X, x.Y})
+	usesParam := func(e ast.Expr) bool {
+		hit := false
+		if e == nil {
+			return false
+		}
+		ast.Inspect(e, func(x ast.Node) bool {
+			if id, ok := x.(*ast.Ident); ok {
+				if v, ok := info.Uses[id].(*types.Var); ok && !v.IsField() && fd.Type.Params != nil &&
+					fd.Type.Params.Pos() <= v.Pos() && v.Pos() < fd.Type.Params.End() {
+					hit = true
 				}
 			}
-		}
-		return true
-	})
-	if len(cmps) != 1 {
-		c.Undecide("R-C11-10", name+"|comparison of the two spec copies", pos(c, fd.Name),
-			sprintf("expected exactly one comparison (reflect.DeepEqual or ==) of two Spec values, found %d: the restart decision has a shape this rule cannot judge", len(cmps)))
-		return
+			return true
+		})
+		return hit
 	}
-	cm := cmps[0]
-	va, vb := isSpecVal(cm.a), isSpecVal(cm.b)
-
-	// (1) two distinct private copies from different specs
-	ok1, why1 := true, ""
-	source := func(v *types.Var) (ast.Expr, int) {
+	sourceOf := func(v *types.Var) (ast.Expr, int) {
 		var src ast.Expr
 		n := 0
 		ast.Inspect(fd.Body, func(x ast.Node) bool {
@@ -157,99 +258,120 @@ func c11Restart(c *core.Ctx) {
 		})
 		return src, n
 	}
-	usesParam := func(e ast.Expr) bool {
-		hit := false
-		if e == nil {
-			return false
+	// resolve one operand
+	resolve := func(e ast.Expr) *c11Operand {
+		op := &c11Operand{label: types.ExprString(e), blank: map[*types.Var]string{}}
+		src := ast.Unparen(e)
+		if v := localVar(e); v != nil {
+			op.v, op.label = v, v.Name()
+			if _, isStruct := v.Type().Underlying().(*types.Struct); !isStruct || !types.Identical(v.Type(), specT) {
+				op.violation = sprintf("%s is not a Spec value but %s: blanking its fields writes into the live spec that the running router generation reads", v.Name(), v.Type())
+				return op
+			}
+			s, n := sourceOf(v)
+			if n != 1 || s == nil {
+				op.undecided = sprintf("%s is assigned %d times: cannot tell which spec it is a copy of", v.Name(), n)
+				return op
+			}
+			src = ast.Unparen(s)
+			op.blank, op.dup = c11BlankedIn(f, fd.Body, v, cm.at)
+		} else if _, isIdent := src.(*ast.Ident); isIdent {
+			op.violation = "an operand of the comparison is not a private copy made in this function (a parameter, field or package variable): the hot-reloadable fields cannot have been blanked on it without touching a live spec"
+			return op
 		}
-		ast.Inspect(e, func(x ast.Node) bool {
-			if id, ok := x.(*ast.Ident); ok {
-				if v, ok := info.Uses[id].(*types.Var); ok && !v.IsField() && fd.Type.Params != nil &&
-					fd.Type.Params.Pos() <= v.Pos() && v.Pos() < fd.Type.Params.End() {
-					hit = true
+		// src: *E  |  g(*E) / g(E) with a same-package normaliser g taking the Spec by value
+		switch x := src.(type) {
+		case *ast.StarExpr:
+			op.copyOf = x.X
+		case *ast.CallExpr:
+			callee, _ := f.Callee(x).(*types.Func)
+			var gd *ast.FuncDecl
+			if callee != nil && callee.Pkg() == f.Pkg.Types {
+				gd = declOf(f.Pkg, callee)
+			}
+			if gd == nil || len(x.Args) != 1 {
+				op.undecided = "the copy is produced by " + types.ExprString(x.Fun) + ", which this rule cannot follow"
+				return op
+			}
+			g := flow.NewFunc(f.Pkg, gd)
+			var pv *types.Var
+			if gd.Type.Params != nil && len(gd.Type.Params.List) == 1 && len(gd.Type.Params.List[0].Names) == 1 {
+				pv, _ = g.Info.Defs[gd.Type.Params.List[0].Names[0]].(*types.Var)
+			}
+			if pv == nil || !types.Identical(pv.Type(), specT) {
+				op.undecided = "the normaliser " + gd.Name.Name + " does not take the Spec by value: cannot tell whether it works on a private copy"
+				return op
+			}
+			// every return yields the parameter itself
+			okRet := true
+			ast.Inspect(gd.Body, func(n ast.Node) bool {
+				if r, ok := n.(*ast.ReturnStmt); ok {
+					if len(r.Results) != 1 {
+						okRet = false
+					} else if id, ok := ast.Unparen(r.Results[0]).(*ast.Ident); !ok || g.Info.Uses[id] != pv {
+						okRet = false
+					}
+				}
+				return true
+			})
+			if !okRet {
+				op.undecided = "the normaliser " + gd.Name.Name + " does not simply return its (blanked) parameter"
+				return op
+			}
+			nb, dup := c11BlankedIn(g, gd.Body, pv, nil)
+			for k, v := range nb {
+				if _, has := op.blank[k]; !has {
+					op.blank[k] = v
 				}
 			}
-			return true
-		})
-		return hit
+			if dup != "" {
+				op.dup = dup
+			}
+			arg := ast.Unparen(x.Args[0])
+			if st, ok := arg.(*ast.StarExpr); ok {
+				op.copyOf = st.X
+			} else {
+				op.copyOf = arg // a Spec value expression: passing it by value copies it
+			}
+		default:
+			op.undecided = "the operand " + op.label + " is neither a dereferenced *Spec nor the result of a same-package normaliser"
+			return op
+		}
+		op.fromParam = usesParam(op.copyOf)
+		return op
+	}
+	oa, ob := resolve(cm.a), resolve(cm.b)
+
+	// (1) two distinct private copies from different specs
+	cons1 := name + "|comparison of two private copies"
+	why1, und1 := "", ""
+	switch {
+	case oa.v != nil && oa.v == ob.v:
+		why1 = "the comparison compares a copy with itself: the decision no longer depends on the next spec"
+	case oa.violation != "":
+		why1 = oa.violation
+	case ob.violation != "":
+		why1 = ob.violation
+	case oa.undecided != "":
+		und1 = oa.undecided
+	case ob.undecided != "":
+		und1 = ob.undecided
+	case oa.fromParam == ob.fromParam:
+		why1 = "both copies are taken from the same spec (running or next): the comparison cannot see what the update changes"
 	}
 	switch {
-	case va == nil || vb == nil:
-		ok1, why1 = false, "an operand of the comparison is not a local variable: the hot-reloadable fields cannot have been blanked on a private copy"
-	case va == vb:
-		ok1, why1 = false, "the comparison compares a copy with itself: the decision no longer depends on the next spec"
+	case why1 != "":
+		c.Violate("R-C11-10", cons1, pos(c, cm.at), why1)
+	case und1 != "":
+		c.Undecide("R-C11-10", cons1, pos(c, cm.at), und1)
 	default:
-		for _, v := range []*types.Var{va, vb} {
-			if _, isStruct := v.Type().Underlying().(*types.Struct); !isStruct || !types.Identical(v.Type(), specT) {
-				ok1, why1 = false, sprintf("%s is not a Spec value but %s: blanking its fields writes into the live spec that the running router generation (muxInstance.spec) reads", v.Name(), v.Type())
-			}
-		}
-		if ok1 {
-			sa, na := source(va)
-			sb, nb := source(vb)
-			_, derefA := ast.Unparen(sa).(*ast.StarExpr)
-			_, derefB := ast.Unparen(sb).(*ast.StarExpr)
-			switch {
-			case na != 1 || nb != 1 || sa == nil || sb == nil || !derefA || !derefB:
-				ok1, why1 = false, "each operand must be a local assigned exactly once from a dereferenced *Spec (a private copy)"
-			case usesParam(sa) == usesParam(sb):
-				ok1, why1 = false, "both copies are taken from the same spec (running or next): the comparison cannot see what the update changes"
-			}
-		}
+		c.Discharge("R-C11-10", cons1, pos(c, cm.at), "the restart decision compares a copy of the running spec with a copy of the next spec")
 	}
-	c.Check(ok1, "R-C11-10", name+"|comparison of two private copies", pos(c, cm.at),
-		"the restart decision compares a copy of the running spec with a copy of the next spec", why1)
-	if va == nil || vb == nil || va == vb {
+	if why1 != "" || und1 != "" {
 		return
 	}
 
-	// (2) symmetric blanking, at the top level and before the comparison
-	blank := map[*types.Var]map[*types.Var]string{va: {}, vb: {}}
-	dup := ""
-	for _, st := range fd.Body.List {
-		if st.Pos() >= cm.at.Pos() || contains(st, cm.at) {
-			break
-		}
-		as, ok := st.(*ast.AssignStmt)
-		if !ok || as.Tok != token.ASSIGN {
-			continue
-		}
-		seen := map[string]bool{}
-		for i, l := range as.Lhs {
-			sel, ok := ast.Unparen(l).(*ast.SelectorExpr)
-			if !ok {
-				continue
-			}
-			v := isSpecVal(sel.X)
-			if v != va && v != vb {
-				continue
-			}
-			sl := info.Selections[sel]
-			if sl == nil || sl.Kind() != types.FieldVal {
-				continue
-			}
-			fv := sl.Obj().(*types.Var)
-			val := "?"
-			if len(as.Rhs) == len(as.Lhs) {
-				if tv, ok := info.Types[as.Rhs[i]]; ok {
-					switch {
-					case tv.IsNil():
-						val = "nil"
-					case tv.Value != nil:
-						val = tv.Value.ExactString()
-					default:
-						val = "?" + f.Render(as.Rhs[i])
-					}
-				}
-			}
-			k := v.Name() + "." + fv.Name()
-			if seen[k] {
-				dup = k
-			}
-			seen[k] = true
-			blank[v][fv] = val
-		}
-	}
+	// (2) symmetric blanking before the comparison
 	var diffs []string
 	fieldsOf := func(m map[*types.Var]string) []string {
 		var out []string
@@ -259,34 +381,36 @@ func c11Restart(c *core.Ctx) {
 		sort.Strings(out)
 		return out
 	}
-	for fv, val := range blank[va] {
-		if w, ok := blank[vb][fv]; !ok {
-			diffs = append(diffs, sprintf("%s is blanked on %s but not on %s", fv.Name(), va.Name(), vb.Name()))
+	for fv, val := range oa.blank {
+		if w, ok := ob.blank[fv]; !ok {
+			diffs = append(diffs, sprintf("%s is blanked on %s but not on %s", fv.Name(), oa.label, ob.label))
 		} else if w != val || strings.HasPrefix(val, "?") {
-			diffs = append(diffs, sprintf("%s is set to %s on %s but to %s on %s", fv.Name(), val, va.Name(), w, vb.Name()))
+			diffs = append(diffs, sprintf("%s is set to %s on %s but to %s on %s", fv.Name(), val, oa.label, w, ob.label))
 		}
 	}
-	for fv := range blank[vb] {
-		if _, ok := blank[va][fv]; !ok {
-			diffs = append(diffs, sprintf("%s is blanked on %s but not on %s", fv.Name(), vb.Name(), va.Name()))
+	for fv := range ob.blank {
+		if _, ok := oa.blank[fv]; !ok {
+			diffs = append(diffs, sprintf("%s is blanked on %s but not on %s", fv.Name(), ob.label, oa.label))
 		}
 	}
 	sort.Strings(diffs)
 	why := ""
 	if len(diffs) > 0 {
 		why = strings.Join(diffs, "; ")
-		if dup != "" {
-			why += " (" + dup + " is assigned twice in one tuple assignment)"
+		for _, d := range []string{oa.dup, ob.dup} {
+			if d != "" {
+				why += " (" + d + " is assigned twice in one tuple assignment)"
+			}
 		}
 		why += ": for every server that sets this field the two copies differ whatever the update changes, so a pure rule/option update takes the restart path — Shutdown closes the listener and new connections are refused while requests of the old generation are in flight"
 	}
 	c.Check(len(diffs) == 0, "R-C11-10", name+"|hot-reloadable fields blanked on both copies", pos(c, cm.at),
-		sprintf("blanked symmetrically with equal constants: %v", fieldsOf(blank[va])), why)
-	c.RequireCount("R-C11-10", "fields blanked before the restart comparison", len(blank[va])+len(blank[vb]), 2)
+		sprintf("blanked symmetrically with equal constants: %v", fieldsOf(oa.blank)), why)
+	c.RequireCount("R-C11-10", "fields blanked before the restart comparison", len(oa.blank)+len(ob.blank), 2)
 
 	// (3) rules are hot-reloadable
-	_, ra := blank[va][rulesF]
-	_, rb := blank[vb][rulesF]
+	_, ra := oa.blank[rulesF]
+	_, rb := ob.blank[rulesF]
 	c.Check(ra && rb, "R-C11-10", name+"|a change of the rules does not restart the server", pos(c, cm.at),
 		"Spec.Rules is blanked on both copies before the comparison",
 		"Spec.Rules is not blanked on both copies before the comparison: every update of the routing rules shuts the listener down instead of swapping the router generation")
